@@ -214,11 +214,13 @@ class InventoryFileReader:
 
     def read_compressed_chunks(self) -> Iterator[bytes]:
         decompressor = zlib.decompressobj()
+        self.compressed_complete = False
         while not self.eof:
             self.read_buffer()
             yield decompressor.decompress(self.buffer)
             self.buffer = b""
         yield decompressor.flush()
+        self.compressed_complete = decompressor.eof
 
     def read_compressed_lines(self) -> Iterator[str]:
         buf = b""
@@ -229,6 +231,10 @@ class InventoryFileReader:
                 yield buf[:pos].decode()
                 buf = buf[pos + 1 :]
                 pos = buf.find(b"\n")
+        if buf and self.compressed_complete:
+            # the final line has no trailing newline
+            # (but do not emit the partial last line of a truncated stream)
+            yield buf.decode()
 
 
 @functools.lru_cache(maxsize=256)
